@@ -23,8 +23,18 @@ typedef unsigned __int128 u128;
 #define MAXBLK 4
 #define SENT   ((void *)(uintptr_t)0x5e17)
 
+/*
+ * A "buffer" of the model is one library-side wrapper (descriptor + bookkeeping
+ * blocks) with its own element count/size and referrer set.  External
+ * wrappers view a harness-owned memory block (struct xmem); several wrappers,
+ * made by separate cstl_array_set() calls and possibly of different geometry,
+ * may view the same block.  x = -1 with external = 1 is set(a, NULL, 0, sz):
+ * an object that refers to something (slice [0,0) legal) of size 0, data NULL.
+ */
+struct xmem { int live; char *p; size_t bytes; };
 struct buf {
     int live, external;
+    int x;                      /* external: index of the harness block, -1 = NULL buffer */
     size_t nm, sz;
     char *base;                 /* element area (data()) */
     void *blk[MAXBLK];          /* library blocks created together with it */
@@ -36,6 +46,8 @@ struct view { int b; size_t off, len; };
 static cstl_array_t *A[NOBJ];
 static struct view V[NOBJ];
 static struct buf B[MAXBUF];
+#define MAXX (MAXBUF + 1)
+static struct xmem X[MAXX];
 static int nobj, maxbuf;
 static int dying[MAXBUF], ndying;
 static const char *lastop = "none";
@@ -225,6 +237,36 @@ static void failk(const char *key, const char *fmt, ...)
  * blocks of such a buffer must be freed; blocks that survive the call belong
  * to the buffer the call created (none may survive otherwise).
  */
+static void xmem_free(int x)
+{
+    memset(X[x].p, 0xa5, X[x].bytes);
+    vrt_free(X[x].p);
+    X[x].live = 0; X[x].p = NULL;
+    VRT_COUNT("external-block.freed-by-harness");
+}
+/* library blocks allocated and not freed again in the call just made */
+static int surviving_allocs(void)
+{
+    void *nb[16];
+    int nnb = 0, n = vrt_ev_n(), i, j;
+    for (i = 0; i < n && i < VRT_EV_MAX; i++) {
+        const struct vrt_aev *e = vrt_ev(i);
+        void *fp = NULL, *ap = NULL;
+        if (e->kind == 'f') fp = e->p;
+        else if (e->failed) continue;
+        else if (e->kind == 'r') { fp = e->p; ap = e->q; }
+        else ap = e->p;
+        if (fp != NULL) for (j = 0; j < nnb; j++) if (nb[j] == fp) { nb[j] = nb[--nnb]; break; }
+        if (ap != NULL && nnb < 16) nb[nnb++] = ap;
+    }
+    return nnb;
+}
+static int any_nonnull_free(void)
+{
+    int n = vrt_ev_n(), i;
+    for (i = 0; i < n && i < VRT_EV_MAX; i++) if (vrt_ev(i)->kind == 'f' && vrt_ev(i)->p != NULL) return 1;
+    return 0;
+}
 static int anyfail;
 static void settle(int created)
 {
@@ -270,16 +312,19 @@ static void settle(int created)
                   "%s took the last reference to %s buffer %d away but %d of its %d library block(s) stayed allocated",
                   lastop, d->external ? "external" : "internal", dying[j],
                   d->nblk - __builtin_popcount(d->freed), d->nblk);
+        d->live = 0;
         if (d->external) {
-            /* the harness owns the element block again: poison + free, so that a stale view is an ASan report */
-            u128 bytes = (u128)d->nm * d->sz;
-            memset(d->base, 0xa5, (size_t)bytes);
-            vrt_free(d->base);
             VRT_COUNT("buffer.external.died");
+            if (d->x >= 0) {
+                int others = 0;
+                for (k = 0; k < MAXBUF; k++) if (B[k].live && B[k].external && B[k].x == d->x) others++;
+                if (others) VRT_COUNT("buffer.external.died.block-still-wrapped");
+                else xmem_free(d->x);   /* the harness owns the block again: poison + free, a stale view is an ASan report */
+            }
         } else {
             VRT_COUNT("buffer.internal.died");
         }
-        d->live = 0; d->base = NULL; d->nblk = 0;
+        d->base = NULL; d->nblk = 0; d->x = -1;
     }
     ndying = 0;
     if (created >= 0) {
@@ -388,6 +433,7 @@ static void st_create(int scope)
     int o;
     nobj = scope & 7; maxbuf = (scope >> 3) & 7;
     memset(B, 0, sizeof(B));
+    memset(X, 0, sizeof(X));
     ndying = 0; in_audit = 0;
     lastop = "none";
     for (o = 0; o < nobj; o++) {
@@ -408,6 +454,7 @@ static void st_destroy(void)
     for (o = 0; o < nobj; o++) st_apply(OP(K_RESET, o, 0, 0, 0, 0, 0, 0), 0);
     VRT_CHECK(vrt_lib_live() == 0, "array.lifetime.leak-at-end", "%zu library block(s) live after every object was reset", vrt_lib_live());
     VRT_CHECK(nlive() == 0, "harness.array.model-buffer-left", "model buffer left after resetting everything");
+    for (o = 0; o < MAXX; o++) VRT_CHECK(!X[o].live, "harness.array.external-block-left", "external block %d still owned at the end", o);
     for (o = 0; o < nobj; o++) { vrt_free(A[o]); A[o] = NULL; }
 }
 
@@ -433,20 +480,43 @@ static int st_apply(uint32_t op, int audit_arg)
         char *ext = NULL;
         void *d;
         int created = -1;
+        /* set: 0 = fresh harness block, 1 = second, separate wrapper over the block object s views, 2 = set(a, NULL, 0, sz) */
+        const int setmode = isset ? c2 : 0;
+        int xsel = -1, newx = 0, othergeom = 0;
 
         if (szc >= 5 || c1 >= N_NCLS || fail > 2) return 0;
-        if (isset && c1 > N_MID) return 0;
+        if (isset && (c1 > N_MID || setmode > 2)) return 0;
         sz = szval[szc]; nm = nmvalue(c1, sz, salt);
+        if (setmode == 1) {
+            const struct buf *w;
+            if (s >= nobj || V[s].b < 0) return 0;
+            w = &B[V[s].b];
+            if (!w->external || w->x < 0) return 0;
+            xsel = w->x;
+            /* the new wrapper may describe the block differently, but never beyond it */
+            if (c1 == N_MID || nm > X[xsel].bytes / sz) nm = X[xsel].bytes / sz;
+            othergeom = nm != w->nm || sz != w->sz;
+        } else if (setmode == 2) {
+            if (c1 != N_0) return 0;
+            nm = 0;
+        }
         prod = (u128)nm * sz;
         if (nlive() - (old >= 0 && refs(old) == 1) + 1 > maxbuf) return 0;
-        if (isset) {
+        if (isset && setmode == 0) {
             /* harness-owned block of exactly nm*sz bytes */
-            ext = vrt_alloc((size_t)prod);
-            memset(ext, 0xee, (size_t)prod);
+            for (xsel = 0; xsel < MAXX && X[xsel].live; xsel++) ;
+            VRT_CHECK(xsel < MAXX, "harness.array.no-free-xmem-slot", "model ran out of external block slots");
+            X[xsel].p = vrt_alloc((size_t)prod);
+            X[xsel].bytes = (size_t)prod; X[xsel].live = 1;
+            memset(X[xsel].p, 0xee, (size_t)prod);
+            newx = 1;
         }
+        if (xsel >= 0) ext = X[xsel].p;
         vrt_state(viewclass(a));
         lastop = isset ? "set" : "alloc";
-        if (isset) VRT_OP4("array.set", "a%ld ext nm=%lu sz=%ld failpoint=%ld", a, nm, sz, fail);
+        if (setmode == 1) VRT_OP4("array.set", "a%ld second wrapper over the block a%ld views, nm=%lu sz=%ld", a, s, nm, sz);
+        else if (setmode == 2) VRT_OP3("array.set", "a%ld NULL nm=0 sz=%ld failpoint=%ld", a, sz, fail);
+        else if (isset) VRT_OP4("array.set", "a%ld ext nm=%lu sz=%ld failpoint=%ld", a, nm, sz, fail);
         else VRT_OP4("array.alloc", "a%ld nm=%lu sz=%ld failpoint=%ld", a, nm, sz, fail);
         if (fail) vrt_fp_arm(fail == 1 ? &fpmask1 : &fpmask2, 2, 0);
         vrt_ev_begin();
@@ -465,7 +535,8 @@ static int st_apply(uint32_t op, int audit_arg)
             vrt_ctr[c_set_sz[szc]]++;
             VRT_COUNT("op.set");
             if (nm == 0) VRT_COUNT("set.nm-zero");
-            if (got == 0 && d == NULL) {
+            /* a wrapper around NULL shows size 0 / data NULL like an empty object: told apart by the blocks that stayed */
+            if (got == 0 && d == NULL && !(setmode == 2 && !anyfail && surviving_allocs() > 0)) {
                 if (anyfail) VRT_COUNT("set.failed.left-empty"); else VRT_COUNT("set.empty-without-failure");
             } else {
                 if (anyfail)
@@ -474,9 +545,15 @@ static int st_apply(uint32_t op, int audit_arg)
                     failk("array.set.result", "set(a%d, %p, nm=%zu, sz=%zu): size %zu data %p", a, (void *)ext, nm, sz, got, d);
                 created = newbuf();
                 B[created].live = 1; B[created].external = 1; B[created].nm = nm; B[created].sz = sz; B[created].base = ext;
+                B[created].x = xsel;
                 V[a].b = created; V[a].off = 0; V[a].len = nm;
                 VRT_COUNT("set.ok");
                 VRT_COUNT("buffer.external.created");
+                if (setmode == 1) {
+                    VRT_COUNT("set.second-wrapper-over-same-buffer");
+                    if (othergeom) VRT_COUNT("set.second-wrapper-over-same-buffer.different-geometry");
+                    if (s == a) VRT_COUNT("set.second-wrapper-over-same-buffer.own-buffer-rewrapped");
+                } else if (setmode == 2) VRT_COUNT("set.null-zero");
             }
             if (onto_offset) VRT_COUNT("set.onto-slice-with-offset");
             if (onto_shared) VRT_COUNT("set.onto-shared");
@@ -510,6 +587,7 @@ static int st_apply(uint32_t op, int audit_arg)
                     failk("array.alloc.result", "alloc(a%d, nm=%zu, sz=%zu): size %zu data %p", a, nm, sz, got, d);
                 created = newbuf();
                 B[created].live = 1; B[created].external = 0; B[created].nm = nm; B[created].sz = sz; B[created].base = d;
+                B[created].x = -1;
                 V[a].b = created; V[a].off = 0; V[a].len = nm;
                 VRT_COUNT("alloc.ok");
                 VRT_COUNT("buffer.internal.created");
@@ -519,7 +597,7 @@ static int st_apply(uint32_t op, int audit_arg)
         }
         if (fail && anyfail) VRT_COUNT("failpoint.fired");
         settle(created);
-        if (isset && created < 0) { memset(ext, 0xa5, (size_t)prod); vrt_free(ext); }
+        if (newx && created < 0) xmem_free(xsel);
         if (!isset && created >= 0 && prod > 0) {
             /* the element area must lie inside one live library block made by this call */
             size_t rs = 0;
@@ -570,6 +648,14 @@ static int st_apply(uint32_t op, int audit_arg)
                     if (refs(sb) == 1) VRT_COUNT("slice.legal.dest-was-last-referrer"); else VRT_COUNT("slice.legal.dest-held-other-buffer");
                 }
                 if (a != s && sb == srcb) VRT_COUNT("slice.legal.dest-same-buffer");
+                if (a != s && sb >= 0 && sb != srcb && B[sb].external && B[srcb].external && B[sb].base == B[srcb].base) {
+                    /* the target is a separate wrapper with the same data pointer: it must still be re-pointed */
+                    VRT_COUNT("slice.into-object-wrapping-same-base");
+                    if (B[sb].base == NULL) VRT_COUNT("slice.into-object-wrapping-same-base.both-null");
+                    else if (B[sb].nm != B[srcb].nm || B[sb].sz != B[srcb].sz) VRT_COUNT("slice.into-object-wrapping-same-base.different-geometry");
+                }
+                if (a != s && sb < 0 && B[srcb].external && B[srcb].base == NULL) VRT_COUNT("slice.null-wrapper-into-empty-object");
+                if (B[srcb].external && B[srcb].base == NULL) VRT_COUNT("slice.legal.of-null-wrapper");
                 retarget(s, srcb, off + beg, end - beg);
             } else {
                 const char *why = end < beg ? "end-lt-beg" : (u128)off + end > (u128)SIZE_MAX ? "past-buffer-wrapping" : "past-buffer";
@@ -610,6 +696,9 @@ static int st_apply(uint32_t op, int audit_arg)
             if (V[a].off > 0) VRT_COUNT("unslice.source-has-offset");
             if (sb >= 0 && V[s].off > 0) VRT_COUNT("unslice.dest-had-offset");
             if (a != s && sb >= 0 && sb != srcb && refs(sb) == 1) VRT_COUNT("unslice.dest-was-last-referrer");
+            if (a != s && sb >= 0 && sb != srcb && B[sb].external && B[srcb].external && B[sb].base == B[srcb].base)
+                VRT_COUNT("unslice.into-object-wrapping-same-base");
+            if (a != s && sb < 0 && B[srcb].external && B[srcb].base == NULL) VRT_COUNT("unslice.null-wrapper-into-empty-object");
             retarget(s, srcb, 0, B[srcb].nm);
         }
         settle(-1);
@@ -631,7 +720,8 @@ static int st_apply(uint32_t op, int audit_arg)
     case K_RELEASE: {
         void *out = SENT;
         const int b = V[a].b, withnull = c1 & 1;
-        const int sole_ext = b >= 0 && B[b].external && refs(b) == 1;
+        const int null_sole = b >= 0 && B[b].external && B[b].x < 0 && refs(b) == 1;
+        const int sole_ext = b >= 0 && B[b].external && refs(b) == 1 && !null_sole;
         const char *why = b < 0 ? "empty" : !B[b].external ? "internal" : "shared";
         vrt_state(bufclass(a));
         lastop = "release";
@@ -640,7 +730,22 @@ static int st_apply(uint32_t op, int audit_arg)
         if (withnull) VRT_COUNT("release.null-out-pointer");
         vrt_ev_begin();
         cstl_array_release(A[a], withnull ? NULL : &out);
-        if (sole_ext) {
+        if (null_sole) {
+            /* sole user of a wrapper around NULL: the buffer handed back is NULL, which is also the refusal value;
+             * both readings are accepted and told apart by whether the wrapper's blocks were let go */
+            if (!withnull && out != NULL)
+                failk("array.release.wrong-pointer", "release(a%d) returned %p, the buffer given to set was NULL", a, out);
+            if (any_nonnull_free()) {
+                if (cstl_array_size(A[a]) != 0 || cstl_array_data(A[a]) != NULL)
+                    failk("array.release.object-not-empty", "a%d reports size %zu data %p after letting its NULL buffer go",
+                          a, cstl_array_size(A[a]), cstl_array_data(A[a]));
+                VRT_COUNT("release.null-wrapper.let-go");
+                retarget(a, -1, 0, 0);
+            } else {
+                VRT_COUNT("release.null-wrapper.kept");
+                audit = 1;
+            }
+        } else if (sole_ext) {
             if (!withnull) {
                 if (out == NULL) failk("array.release.sole-user-refused", "release(a%d) reported NULL although a%d is the only user of an external buffer", a, a);
                 if (out != (void *)B[b].base)
@@ -730,15 +835,25 @@ static int st_apply(uint32_t op, int audit_arg)
 
 static uint64_t st_sig(void)
 {
-    int canon[MAXBUF], nc = 0, o, b;
+    int canon[MAXBUF], xcanon[MAXX], nc = 0, nx = 0, o, b;
     uint64_t h = 0xa77a0 + nobj;
     for (b = 0; b < MAXBUF; b++) canon[b] = -1;
+    for (b = 0; b < MAXX; b++) xcanon[b] = -1;
     for (o = 0; o < nobj; o++) {
         if (V[o].b < 0) { h = vrt_mix(h, 1); continue; }
         b = V[o].b;
         if (canon[b] < 0) {
             canon[b] = nc++;
             h = vrt_mix(h, 0x100 + B[b].external);
+            if (B[b].external) {
+                /* which harness block it views (canonical), or NULL */
+                if (B[b].x < 0) h = vrt_mix(h, 0x7000);
+                else {
+                    if (xcanon[B[b].x] < 0) xcanon[B[b].x] = nx++;
+                    h = vrt_mix(h, 0x7001 + xcanon[B[b].x]);
+                    h = vrt_mix(h, X[B[b].x].bytes);
+                }
+            }
             h = vrt_mix(h, B[b].nm);
             h = vrt_mix(h, B[b].sz);
         }
@@ -769,6 +884,8 @@ struct cscope {
     int failpoints;             /* also alloc/set with failpoint 1 and 2 (for one count class) */
     uint64_t max_states;
     int max_depth;
+    unsigned wrapnm;            /* count classes for a second, separate set() over the block another (or the same) object views */
+    int nullset;                /* also set(a, NULL, 0, sz) */
 };
 #define M(x) (1u << (x))
 #define HUGE_NM (M(N_2P63) | M(N_MAX) | M(N_MAXDIV1) | M(N_MAXDIV) | M(N_HDRFIT1) | M(N_CAP1))
@@ -776,23 +893,23 @@ struct cscope {
 #define BEG_CORE (M(S_0) | M(S_1) | M(S_LEN) | M(S_MAXM1) | M(S_MAXOFF1))
 static const struct cscope quick_scopes[] = {
     /* two objects, every end class against the core begin classes, unsatisfiable allocs, failpoints: to closure */
-    { 2, 2, M(2), M(N_0) | M(N_3) | HUGE_NM, M(N_3), BEG_CORE, ALL_BOUNDS, 1, 60000, 12 },
+    { 2, 2, M(2), M(N_0) | M(N_3) | HUGE_NM, M(N_3), BEG_CORE, ALL_BOUNDS, 1, 60000, 12, M(N_1), 0 },
     /* three objects, two buffers of two elements: sharing / lifetime interplay */
-    { 3, 2, M(0), M(N_2), M(N_2), M(S_0) | M(S_1), M(S_1) | M(S_REM) | M(S_REM1), 0, 60000, 12 },
+    { 3, 2, M(0), M(N_2), M(N_2), M(S_0) | M(S_1), M(S_1) | M(S_REM) | M(S_REM1), 0, 60000, 12, M(N_MID), 1 },
     /* four objects, three buffers, short histories (bounded-exhaustive) */
-    { 4, 3, M(1), M(N_2) | M(N_MAXDIV1), M(N_2), M(S_0) | M(S_1), M(S_2) | M(S_REM1) | M(S_WRAPREM), 0, 60000, 4 },
+    { 4, 3, M(1), M(N_2) | M(N_MAXDIV1), M(N_2), M(S_0) | M(S_1), M(S_2) | M(S_REM1) | M(S_WRAPREM), 0, 60000, 4, M(N_MID), 1 },
 };
 static const struct cscope thorough_scopes[] = {
     { 2, 2, M(0) | M(4), M(N_0) | M(N_1) | M(N_3) | HUGE_NM | M(N_MAXM1) | M(N_HDRFIT) | M(N_2P32), M(N_0) | M(N_3),
-      ALL_BOUNDS, ALL_BOUNDS, 1, 400000, 14 },
+      ALL_BOUNDS, ALL_BOUNDS, 1, 400000, 14, M(N_1) | M(N_MID), 1 },
     { 3, 2, M(2), M(N_0) | M(N_2) | M(N_2P63) | M(N_MAX), M(N_2),
       M(S_0) | M(S_1) | M(S_MAXM1) | M(S_MAXOFF1),
-      M(S_0) | M(S_1) | M(S_2) | M(S_LEN1) | M(S_REM) | M(S_REM1) | M(S_MAXOFF1) | M(S_MAX) | M(S_WRAPREM), 1, 400000, 12 },
+      M(S_0) | M(S_1) | M(S_2) | M(S_LEN1) | M(S_REM) | M(S_REM1) | M(S_MAXOFF1) | M(S_MAX) | M(S_WRAPREM), 1, 400000, 12, M(N_1) | M(N_MID), 1 },
     { 3, 3, M(3), M(N_1) | M(N_3) | M(N_MAX), M(N_3),
-      M(S_0) | M(S_1), M(S_1) | M(S_LEN) | M(S_REM) | M(S_REM1) | M(S_MAXOFF1), 0, 400000, 12 },
+      M(S_0) | M(S_1), M(S_1) | M(S_LEN) | M(S_REM) | M(S_REM1) | M(S_MAXOFF1), 0, 400000, 12, M(N_MID), 0 },
     { 4, 3, M(1), M(N_2) | M(N_MAXDIV1), M(N_2), M(S_0) | M(S_1) | M(S_MAXM1),
-      M(S_2) | M(S_REM) | M(S_REM1) | M(S_WRAPREM), 1, 400000, 5 },
-    { 4, 2, M(4), M(N_2), M(N_2), M(S_0) | M(S_1), M(S_1) | M(S_REM) | M(S_REM1), 0, 400000, 12 },
+      M(S_2) | M(S_REM) | M(S_REM1) | M(S_WRAPREM), 1, 400000, 5, M(N_MID), 1 },
+    { 4, 2, M(4), M(N_2), M(N_2), M(S_0) | M(S_1), M(S_1) | M(S_REM) | M(S_REM1), 0, 400000, 12, M(N_MID), 1 },
 };
 static const struct cscope *scopes;
 static int nscopes;
@@ -811,6 +928,9 @@ static int build_alphabet(const struct cscope *sc, uint32_t *al)
                 al[n++] = OP(K_SET, a, 0, c, 0, z, 0, 0);
                 if (sc->failpoints && (c == N_3 || c == N_2)) for (f = 1; f <= 2; f++) al[n++] = OP(K_SET, a, 0, c, 0, z, f, 0);
             }
+            for (c = 0; c <= N_MID; c++) if (sc->wrapnm >> c & 1)
+                for (s = 0; s < sc->nobj; s++) al[n++] = OP(K_SET, a, s, c, 1, z, 0, 0);
+            if (sc->nullset) al[n++] = OP(K_SET, a, 0, N_0, 2, z, 0, 0);
         }
         for (s = 0; s < sc->nobj; s++) {
             for (c = 0; c < S_NCLS; c++) if (sc->begmask >> c & 1)
@@ -897,8 +1017,19 @@ static void run_random(uint64_t idx)
         } else if (r < 26) {
             int c, f = vrt_chance(&g, 1, 6) ? 1 + (int)vrt_below(&g, 2) : 0;
             unsigned q = vrt_below(&g, 100);
+            unsigned q2 = vrt_below(&g, 12);
             if (q < 70) c = N_SMALL; else if (q < 78) c = N_0; else if (q < 86) c = N_1; else if (q < 96) c = N_3; else c = N_MID;
-            op = OP(K_SET, a, 0, c, 0, z, f, salt);
+            if (q2 < 3) {
+                /* a second, separate wrapper over a block some object already wraps (any geometry that fits) */
+                int k, src = (int)vrt_below(&g, no);
+                for (k = 0; k < no; k++) {
+                    const int o = (src + k) % no;
+                    if (V[o].b >= 0 && B[V[o].b].external && B[V[o].b].x >= 0) { src = o; break; }
+                }
+                if (vrt_chance(&g, 1, 2)) c = N_MID;
+                op = OP(K_SET, a, src, c, 1, z, f, salt);
+            } else if (q2 == 3) op = OP(K_SET, a, 0, N_0, 2, z, f, salt);
+            else op = OP(K_SET, a, 0, c, 0, z, f, salt);
         } else if (r < 62) {
             int cb = pick_bound(&g), ce = pick_bound(&g);
             if (vrt_chance(&g, 1, 2)) {
@@ -921,7 +1052,7 @@ static void run_random(uint64_t idx)
     VRT_COUNT("random.histories");
 }
 
-static uint64_t nrandom(void) { return vrt_thorough ? 40000 : 6000; }
+static uint64_t nrandom(void) { return vrt_thorough ? 40000 : 5000; }
 static uint64_t ncases(void)
 {
     if (vrt_thorough) { scopes = thorough_scopes; nscopes = sizeof(thorough_scopes) / sizeof(scopes[0]); }
@@ -942,6 +1073,8 @@ static void winit(void)
 
 static const char *const required[] = {
     "op.alloc", "op.set", "op.slice", "op.unslice", "op.reset", "op.release", "op.at", "op.at_const", "op.data", "op.size",
+    "set.second-wrapper-over-same-buffer", "set.second-wrapper-over-same-buffer.different-geometry", "set.null-zero",
+    "slice.into-object-wrapping-same-base", "slice.null-wrapper-into-empty-object", "buffer.external.died.block-still-wrapped",
     "alloc.ok", "alloc.nm-zero", "alloc.onto-slice-with-offset", "set.onto-slice-with-offset",
     "alloc.request.unrepresentable", "alloc.request.over-cap", "alloc.failed.left-empty.unsatisfiable",
     "alloc.failed.left-empty.failpoint", "set.failed.left-empty", "alloc.block-located",
